@@ -55,6 +55,10 @@
 (*               DoISRApply); TRUE = today's code                          *)
 (*   KeepOnFail = TRUE   the status survives a FAILED election attempt     *)
 (*               (timer stopped, so for ever); FALSE = today's code        *)
+(*   RecheckElect = FALSE  electNewPartitionLeader proposes CHANGE_LEADER  *)
+(*               without comparing the pair again in the Raft precondition *)
+(*               (defective when two elections for the same generation are *)
+(*               in flight, see DoElectApply); TRUE = today's code         *)
 (* They exist to generate the counterexamples that are replayed on the     *)
 (* real code.                                                              *)
 (***************************************************************************)
@@ -64,7 +68,7 @@ CONSTANTS Replicas,     \* replica ids of the partition (strings)
           Outsider,     \* an id that is not a replica (reports may come from anywhere)
           Dense,        \* TRUE: the next Raft index is epoch + 1 (bounded model);
                         \* FALSE: any larger index (recorded traces: the Raft log is shared)
-          KeepStatus, CountAll, RecheckAtApply, RecheckISR, KeepOnFail
+          KeepStatus, CountAll, RecheckAtApply, RecheckISR, KeepOnFail, RecheckElect
 
 VARIABLES exists, isr, pisr, leader, lepoch, pepoch, e0, fo, armed, good, obs, pend, taint
 pvars == <<exists, isr, pisr, leader, lepoch, pepoch, e0>>   \* replicated partition state
@@ -185,6 +189,55 @@ DoReportApply(i) ==
        /\ taint' = TaintAfterApply(r.l, r.e)     \* unchanged
      ELSE
        /\ ReportEffect(r.w, r.l, r.e, "ReportApply", TRUE)
+       /\ taint' = TaintAfterApply(r.l, r.e)
+  /\ pend' = SubSeq(pend, 1, i - 1) \o SubSeq(pend, i + 1, Len(pend))
+
+\* Third split point of ReportLeader.  A report that completes the quorum registers
+\* its witness, stops the timer, releases the status mutex and calls
+\* electNewPartitionLeader, which compares the pair once more and only then picks
+\* the candidates and proposes CHANGE_LEADER.  DoElectCheck = everything up to that
+\* comparison (gate metadata.elect.checked): the election is decided, the status
+\* stays in the map with its witnesses and a stopped timer while the election is in
+\* flight.  A report that does not complete the quorum never gets there: it is an
+\* ordinary report.
+ElectParked == \E i \in 1..Len(pend) : pend[i].k = "elect"
+
+DoElectCheck(w, l, e) ==
+  IF Stale(l, e) THEN RefuseStale("ElectCheck")
+  ELSE IF ~WouldElect(w) THEN ReportEffect(w, l, e, "ElectCheck", TRUE) /\ UNCHANGED <<pend, taint>>
+  ELSE /\ UNCHANGED <<pvars, taint>>
+       /\ fo' = [on |-> TRUE, wit |-> (IF fo.on THEN fo.wit ELSE {}) \cup {w}]
+       /\ armed' = FALSE
+       /\ good' = GoodAfterReport(w, l, e)
+       /\ pend' = Append(pend, [k |-> "elect", w |-> w, l |-> l, e |-> e])
+       /\ obs' = [a |-> "ElectCheck", err |-> ""]
+
+\* ... and the rest, arbitrarily later: candidates = the in-sync followers of the
+\* CURRENT leader, Raft proposal whose precondition compares the pair AGAIN (as
+\* shipped + fix 42fc4fc; without it a second election for the same generation -
+\* started by a repeated report while the first one was queued - deposes the leader
+\* the first one elected, whom nobody reported), then OnExpired of the status the
+\* election belongs to (it removes only itself).
+\* (domain: the stream still exists; while an election is parked there is no expiry,
+\* controller change or Raft fault - then the map's entry, if any, is that status)
+DoElectApply(i) ==
+  /\ i \in 1..Len(pend) /\ exists /\ pend[i].k = "elect"
+  /\ LET r == pend[i] IN
+     IF RecheckElect /\ Stale(r.l, r.e) THEN
+       /\ obs' = [a |-> "ElectApply", err |-> "stale"]
+       /\ UNCHANGED <<exists, isr, pisr, leader, lepoch, pepoch, e0, fo, armed, good>>
+       /\ taint' = TaintAfterApply(r.l, r.e)     \* unchanged
+     ELSE IF Cardinality(isr) <= 1 \/ Followers = {} THEN
+       /\ obs' = [a |-> "ElectApply", err |-> "nocand"]
+       /\ UNCHANGED pvars
+       /\ fo' = NoFo /\ armed' = FALSE /\ good' = good
+       /\ taint' = TaintAfterApply(r.l, r.e)
+     ELSE
+       /\ \E n \in Followers : leader' = n
+       /\ NewIdx(pepoch', pepoch) /\ lepoch' = pepoch'
+       /\ UNCHANGED <<exists, isr, pisr, e0>>
+       /\ fo' = NoFo /\ armed' = FALSE /\ good' = {}
+       /\ obs' = [a |-> "ElectApply", err |-> ""]
        /\ taint' = TaintAfterApply(r.l, r.e)
   /\ pend' = SubSeq(pend, 1, i - 1) \o SubSeq(pend, i + 1, Len(pend))
 
@@ -349,6 +402,24 @@ P_ISRApply(i) ==
           /\ IF r.k = "shrink" THEN isr' \subseteq isr /\ isr \ isr' \subseteq {r.w}
                                ELSE isr \subseteq isr' /\ isr' \ isr \subseteq {r.w}
 
+\* an election is STARTED (the request parks behind the comparison inside
+\* electNewPartitionLeader) only with the quorum; otherwise the step is a report
+P_ElectCheck(w, l, e) ==
+  /\ P_ReportLeader(w, l, e)
+  /\ Len(pend') > Len(pend) => 2 * Cardinality(ValidWitnesses(w)) > Cardinality(Followers)
+
+\* ... and takes effect when its proposal is made: if the pair it is about is stale
+\* by then it must not change anything; otherwise the new leader comes from the
+\* current in-sync set and is not the reported one (the quorum was judged when the
+\* election started)
+P_ElectApply(i) ==
+  LET r == pend[i] IN
+  /\ P_Epochs
+  /\ IF Stale(r.l, r.e) THEN NoChange
+     ELSE /\ isr' = isr /\ exists' = exists
+          /\ lepoch' = lepoch => pepoch' = pepoch
+          /\ lepoch' # lepoch => (leader' \in isr /\ leader' # r.l)
+
 P_ReportCheck(w, l, e) == NoChange /\ (Stale(l, e) => obs'.err # "")
 
 P_ShrinkISR(r, l, e) ==
@@ -380,7 +451,7 @@ TypeOK == /\ exists \in BOOLEAN /\ armed \in BOOLEAN
           /\ lepoch <= pepoch /\ e0 <= lepoch
 \* a status that is kept has an armed timer (so that it cannot go stale), and
 \* there is none for a partition that does not exist
-StatusLive == ~taint => ((fo.on => (armed /\ exists)) /\ (~fo.on => fo.wit = {}))
+StatusLive == ~taint => ((fo.on => ((armed \/ ElectParked) /\ exists)) /\ (~fo.on => fo.wit = {}))
 \* the recorded witnesses are what the property counts
 WitnessesAreGood == ~taint => (fo.on => fo.wit \subseteq good)
 NoTaint == ~taint
